@@ -450,6 +450,16 @@ def setURLAsync (s : BState) (i : Nat) (rq : SetReq) (f : Fetch) : BState × Set
 lists (`set_rules`, a configuration reload). -/
 def enqueue (s : BState) : BState := ⟨s.ls, some (enabledFlags s.ls)⟩
 
+/-- `handleFilteringRemoveURL`: the list leaves the configuration (modelled as
+disabled, with zero metadata), its file is renamed away (`<id>.txt.old`), and
+a rebuild is requested. -/
+def removeAsync (s : BState) (i : Nat) : BState :=
+  match s.ls[i]? with
+  | none => s
+  | some l =>
+    let ls1 := s.ls.set i { l with flt := ⟨false, 0, 0, none⟩ }
+    ⟨ls1, some (enabledFlags ls1)⟩
+
 /-- `updatesLoop` takes what is waiting in the channel. -/
 def drain (s : BState) : BState :=
   match s.pending with
